@@ -102,9 +102,13 @@ def _to_real(t):
 
 
 def _const_value(x):
-    """concrete python number or None"""
+    """concrete python number (also for Sym numerals, so that x*0, x*1, x+0 stay small) or None"""
     if isinstance(x, (bool, _np.bool_, int, _np.integer, float, _np.floating, Fraction)):
         return x
+    if isinstance(x, Sym):
+        v = _numeral(x.t)
+        if v is not None:
+            return v if _is_real(x.t) else int(v)
     return None
 
 
@@ -162,8 +166,12 @@ class Sym:
         return None
 
     def __add__(s, o):
+        if isinstance(o, Sym) and _numeral(o.t) is None:
+            sv = _const_value(s)
+            if sv is not None:
+                return o.__radd__(sv)
         c = _const_value(o)
-        if c is not None and c == 0 and not isinstance(o, (float, _np.floating)):
+        if c is not None and c == 0 and not isinstance(o, (float, _np.floating)) and not (isinstance(o, Sym) and _is_real(o.t) and not _is_real(s.t)):
             return s
         ot = s._coerce(o)
         if ot is None:
@@ -182,8 +190,12 @@ class Sym:
         return Sym(ot + s.t)
 
     def __sub__(s, o):
+        if isinstance(o, Sym) and _numeral(o.t) is None:
+            sv = _const_value(s)
+            if sv is not None:
+                return o.__rsub__(sv)
         c = _const_value(o)
-        if c is not None and c == 0 and not isinstance(o, (float, _np.floating)):
+        if c is not None and c == 0 and not isinstance(o, (float, _np.floating)) and not (isinstance(o, Sym) and _is_real(o.t) and not _is_real(s.t)):
             return s
         ot = s._coerce(o)
         if ot is None:
@@ -202,6 +214,10 @@ class Sym:
         return Sym(ot - s.t)
 
     def __mul__(s, o):
+        if isinstance(o, Sym) and _numeral(o.t) is None:
+            sv = _const_value(s)
+            if sv is not None:
+                return o.__rmul__(sv)
         c = _const_value(o)
         if c is not None:
             if c == 0:
@@ -233,6 +249,10 @@ class Sym:
         return Sym(ot * s.t)
 
     def __truediv__(s, o):
+        if isinstance(o, Sym) and _numeral(o.t) is None:
+            sv = _const_value(s)
+            if sv is not None:
+                return o.__rtruediv__(sv)
         c = _const_value(o)
         if c is not None:
             if c == 0:
